@@ -99,21 +99,35 @@ def run_dp(st, lib, sources, sub, tier, seed, merged, verdict, wraps=WRAP_PIN, n
     return m
 
 
+
+def run_huge(st, lib, sub, tier, seed, merged, verdict):
+    """thorough tier: one request of more than 2^32 bytes per bulk entry point (harness/h_huge.c), one process per cipher"""
+    srcs = ["common.c", "pin.c", "families.c", "alloc.c", "obj.c", "h_huge.c"]
+    binary = build_harness(st, lib, "huge-" + sub, srcs, wraps=MC_WRAPS)
+    args = ["--sub", sub, "--tier", tier, "--seed", str(seed), "--label", lib.name, "--maxbe", str(lib.maxbe)]
+    spec = {"sources": srcs, "special": "huge", "build": lib.name, "args": args}
+    m = Merged()
+    for res in run_sharded(binary, args, st, "huge-%s-%s" % (sub, lib.name), nshards=3, timeout=7200):
+        m.add(res, spec); merged.add(res, spec)
+    verdict.handle(m, None)
+    return m
+
+
 # ------------------------------------------------------------------ C01
 
 def check_c01(tier, seed):
     v = Verdict("C01", tier, seed)
     st = new_stage()
     merged = Merged()
-    builds = ["shipped", "w32"]
-    libs = run_parallel([lambda n=n: mkbuild(n).build(st, jobs=8) for n in builds], workers=2)
+    builds = ["shipped", "w32", "be0"]
+    libs = run_parallel([lambda n=n: mkbuild(n).build(st, jobs=5) for n in builds], workers=3)
     per = {}
     for lib in libs:
         m = run_dp(st, lib, ["h_dp.c"], "c01", tier, seed, merged, v)
         per[lib.name] = m.evaluations
     cov = {"evaluations": merged.evaluations, "distinct_nontrivial": merged.distinct,
            "rule": "BG/BYTE/PAIR/BIT%s families over key||block for the six SKINNY variants x {encrypt, decrypt}, "
-                   "each on the 64-bit-word and 32-bit-word builds; a case is non-trivial when the output differs "
+                   "each on the 64-bit-word, 32-bit-word and byte-order-neutral builds (the key in a buffer of its own followed by a fixed non-zero pattern); a case is non-trivial when the output differs "
                    "from the input block; distinct = distinct (build, variant, direction, key, block, output) digests"
                    % ("/ADJ" if tier == "thorough" else ""),
            "samples": merged.samples, "evaluations_per_build": per, "builds": [l.describe() for l in libs],
@@ -127,8 +141,8 @@ def check_c02(tier, seed):
     v = Verdict("C02", tier, seed)
     st = new_stage()
     merged = Merged()
-    builds = ["shipped", "w32"]
-    libs = run_parallel([lambda n=n: mkbuild(n).build(st, jobs=8) for n in builds], workers=2)
+    builds = ["shipped", "w32", "be0"]
+    libs = run_parallel([lambda n=n: mkbuild(n).build(st, jobs=5) for n in builds], workers=3)
     per = {}
     for lib in libs:
         m = run_dp(st, lib, ["h_dp.c"], "c02", tier, seed, merged, v)
@@ -222,6 +236,7 @@ def check_c05(tier, seed):
     run_mc(st, lib, "h_ctr.c", "c05", tier, seed, merged, v, nshards=26)
     if tier == "thorough":      # the 32-bit-word build compiles different vector S-box code in the 128-bit back end
         run_mc(st, mkbuild("w32").build(st), "h_ctr.c", "c05", tier, seed, merged, v, nshards=26)
+        run_huge(st, lib, "ctr", tier, seed, merged, v)     # encrypt(21) then one request of more than 2^32 bytes, in place, widest back end of each cipher
     closed = all(val == 0 for k, val in merged.notes.items() if k.startswith("kinds_cut_by_depth_cap"))
     cov = mc_cov(merged,
                  "BFS over CTR call histories {init, set_key|set_tweaked_key, set_tweak, set_counter, encrypt(len), second set_counter} "
@@ -284,11 +299,14 @@ def check_c07(tier, seed):
     lib = libs[0]
     for l in libs:      # the 32-bit-word build compiles different vector S-box code (sbox_two) in the 128-bit back end
         run_mc(st, l, "h_par.c", "c07", tier, seed, merged, v, nshards=NCPU)
+    huge = run_huge(st, lib, "par", tier, seed, merged, v).evaluations if tier == "thorough" else 0
     cov = {"evaluations": merged.evaluations, "distinct_nontrivial": merged.distinct,
            "rule": "every block count 0..25 (3 x widest batch + 1) x {encrypt, decrypt} x data families with per-block distinct contents x "
                    "{in-place, out-of-place} x key configurations (Skinny: 2 keys x 3 sizes; Mantis: rounds x modes, independent tweak per block) "
                    "x every back end (pinned), compared with the single-block functions block by block; plus byte counts that are not whole blocks "
-                   "(must return 0, output untouched) and the advertised parallel_size; non-trivial = output differs from input",
+                   "(must return 0, output untouched) and the advertised parallel_size; non-trivial = output differs from input. Thorough: plus one in-place request of 2^32 bytes + 9 blocks per entry point and vector back end, "
+                   "sampled blocks (first, last, around every multiple of 2^32 bytes, one in 2^16) against the single-block functions",
+           "requests_larger_than_4GiB": huge,
            "samples": merged.samples, "builds": [l.describe() for l in libs]}
     return v.finish("exploration", cov,
                     ["single-block functions are tied to the specification by C01/C02", "block counts above 3P+1 are not run (loop structure argument, DESIGN.md 4/C07)"])
@@ -538,14 +556,39 @@ def check_c13(tier, seed):
             m.add(res, spec); merged.add(res, spec)
         v.handle(m, None)
         per[lib.name] = m.evaluations
+    # (c) instruction audit of the objects as the repository's Makefile builds them: every object except the two
+    # 256-bit back ends can be reached on a CPU that only has SSE2, so none of their instructions may be VEX/EVEX encoded
+    audit = {}
+    import re as _re
+    pa = vplib.sh(["objdump", "-d", "--no-show-raw-insn", libs[0].lib], check=False)
+    cur = None
+    vex = _re.compile(r"^\s*[0-9a-f]+:\s+(v[a-z0-9]+)\b|%[yz]mm\d")
+    for line in (pa.stdout or "").splitlines():
+        mh = _re.match(r"^(\S+\.o):\s+file format", line)
+        if mh:
+            cur = mh.group(1); audit[cur] = [0, 0, None]; continue
+        if cur and _re.match(r"^\s*[0-9a-f]+:\s", line):
+            audit[cur][0] += 1
+            if vex.search(line):
+                audit[cur][1] += 1
+                audit[cur][2] = audit[cur][2] or line.strip()
+    if len(audit) < 10 or sum(a[0] for a in audit.values()) < 1000:
+        raise EngineError("instruction audit saw too little: %r" % ({k: a[0] for k, a in audit.items()},))
+    if not any(a[1] for k, a in audit.items() if k.endswith("-vec256.o")):
+        raise EngineError("instruction audit control failed: no VEX instruction found in the 256-bit back ends")
+    for k, a in sorted(audit.items()):
+        if a[1] and not k.endswith("-vec256.o"):
+            v.new.append({"sig": "C13/object-needs-avx/%s" % k, "case": "", "label": libs[0].name, "replay": None,
+                          "detail": "%s (built by src/Makefile, reachable on a CPU with SSE2 only) contains %d VEX-encoded instruction(s) of %d, first: %s" % (k, a[1], a[0], a[2])})
     states = sum(val for k, val in merged.notes.items() if k.startswith("environment_states"))
     cov = {"states": int(states), "transitions": merged.evaluations, "traces_validated_against_impl": merged.evaluations,
+           "instruction_audit": {k: {"instructions": a[0], "vex_encoded": a[1]} for k, a in sorted(audit.items())},
            "evaluations": merged.evaluations, "distinct_nontrivial": merged.distinct,
            "rule": "(b) environment states = max basic leaf {1,2,4,6,7,0xB,0xD,0x1F} x out-of-range leaf behaviour {zeros, highest-basic-leaf data} x SSE2 x OSXSAVE x AVX x XCR0 {1,3,7,0xE7} x AVX2 x "
                    "leaf-7 sub-leaf-1 contents {0, ones} x all other feature bits {0, ones}, consistent CPUs only, answered through the guarded CPUID/XGETBV seam; every state x each of the six init "
                    "functions executed twice (different caller registers, stack paint and prior content of the caller's object: 0x00 / 0xFF) on builds with both SIMD back ends, with only the 128-bit one and with none compiled in; oracle: selected vtable / function table and "
                    "parallel_size == widest back end compiled in and usable in that state. (a) the real CPU: six inits x 14 caller-register/stack/object patterns x 3 repetitions through an assembly trampoline, same three builds, "
-                   "oracle = the compiler's CPU detection; transitions = init calls judged",
+                   "oracle = the compiler's CPU detection; transitions = init calls judged. (c) every instruction of every object of the Makefile-built library is decoded: only the two 256-bit back-end objects may contain VEX-encoded instructions (they are the control)",
            "samples": merged.samples, "notes": merged.notes, "calls_per_build": per, "builds": [l.describe() for l in libs]}
     return v.finish("model_checking", cov, ["x86 only (NEON has no run-time probe)", "model states that would select a back end the host cannot execute are skipped and counted"], exhaustive=True)
 
